@@ -542,6 +542,11 @@ C2S_DEVIATIONS = [
     ("new-sid0", lambda: [new_frame(0, 7)]),
     ("new-negative", lambda: [new_frame(-5, 7)]),
     ("new-skip-ahead", lambda: [new_frame(9, 7, shape="unary")]),
+    # the boundary ids: the latest id again (after that RPC completed, or while it is live), -1 as an id,
+    # an id that was refused at start used again for a servable RPC
+    ("new-reuse-latest", lambda: [new_frame(2, 7, shape="unary")]),
+    ("new-minus-one", lambda: [new_frame(-1, 7, shape="unary")]),
+    ("new-reuse-rejected", lambda: [new_frame(5, 7, method="/verif.Svc/Nope"), new_frame(5, 8, shape="unary")]),
     ("new-unknown-method", lambda: [new_frame(5, 7, method="/verif.Svc/Nope")]),
     ("new-unknown-service", lambda: [new_frame(5, 7, method="/nope.Svc/Unary")]),
     ("new-empty-method", lambda: [new_frame(5, 7, method="")]),
@@ -609,11 +614,39 @@ def fam_hostile_srv(seed, n=0, dirs=("fwd", "rev"), modes=("neg", "legacy", "off
                         steps += [copy.deepcopy(f), dl("c2s")]
                     rpcs = [{"rpc": 1, "s": {"m": [op("recv"), op("recv"), op("send", n=3), op("ret", code=0)]}},
                             {"rpc": 2, "s": {"m": [op("recv"), op("ret", code=0, n=4)]}},
-                            {"rpc": 7, "s": {"m": [op("recv"), op("ret", code=0, n=1)]}}]
+                            {"rpc": 7, "s": {"m": [op("recv"), op("ret", code=0, n=1)]}},
+                            {"rpc": 8, "s": {"m": [op("recv"), op("ret", code=0, n=1)]}}]
                     out.append({"name": "hostile-srv-%s-%s-%s-p%d" % (d, mode, dname, pos),
                                 "cfg": {"dir": d, "rawCli": mode}, "steps": steps, "rpcs": rpcs,
                                 "policy": {"kind": "eager", "seed": seed, "max": 200},
                                 "meta": {"family": "hostile-srv", "deviation": dname}})
+        # the same id discipline while the server is shutting down (new RPCs are refused, but a refused id
+        # is still a used id: stale / reused / backwards ids end the tunnel, follow-up frames of a refused
+        # RPC do not)
+        for dname, mk in C2S_DEVIATIONS:
+            if not (dname.startswith("new-") or dname in ("dup-new-live", "msg-unknown-sid")) or "window" in dname:
+                continue
+            conv = [new_frame(1, 1), new_frame(2, 2, shape="unary")] + data_frames(1, 1, "c", 0, 12) \
+                + data_frames(2, 2, "c", 0, 9) + [raw("half", 2), raw("half", 1)]
+            tail = [new_frame(3, 3, shape="unary")] + data_frames(3, 3, "c", 0, 9) + [raw("half", 3)]
+            for sd in (2, len(conv)):
+                for pos in (sd, sd + 1, sd + len(tail)):
+                    after = tail[:pos - sd] + mk() + tail[pos - sd:]
+                    steps = copy.deepcopy(PREFIX)
+                    for f in conv[:sd]:
+                        steps += [copy.deepcopy(f), dl("c2s")]
+                    steps += [{"do": "shutdown"}]
+                    for f in conv[sd:] + after:
+                        steps += [copy.deepcopy(f), dl("c2s")]
+                    rpcs = [{"rpc": 1, "s": {"m": [op("recv"), op("recv"), op("send", n=3), op("ret", code=0)]}},
+                            {"rpc": 2, "s": {"m": [op("recv"), op("ret", code=0, n=4)]}},
+                            {"rpc": 3, "s": {"m": [op("recv"), op("ret", code=0, n=1)]}},
+                            {"rpc": 7, "s": {"m": [op("recv"), op("ret", code=0, n=1)]}},
+                            {"rpc": 8, "s": {"m": [op("recv"), op("ret", code=0, n=1)]}}]
+                    out.append({"name": "hostile-srv-%s-shutdown%d-%s-p%d" % (d, sd, dname, pos),
+                                "cfg": {"dir": d, "rawCli": "neg"}, "steps": steps, "rpcs": rpcs,
+                                "policy": {"kind": "eager", "seed": seed, "max": 200},
+                                "meta": {"family": "hostile-srv", "deviation": "shutdown-" + dname}})
         # a caller that announces a huge window for ITSELF (new_stream) and overruns the server's 64 KiB
         for dname, mk in C2S_DEVIATIONS:
             if not dname.startswith("overrun"):
